@@ -116,6 +116,8 @@ let perr_to_sx (e : Model.perr) : sx =
   | Model.EGenericsForbiddenInGo s -> L [A "EGenericsForbiddenInGo"; str_to_atom s]
   | Model.EGenericKeyForbiddenInTS s -> L [A "EGenericKeyForbiddenInTS"; str_to_atom s]
   | Model.EUnsupportedSpecialType s -> L [A "EUnsupportedSpecialType"; str_to_atom s]
+  | Model.EConstUnsupported s -> L [A "EConstUnsupported"; str_to_atom s]
+  | Model.EPackageRequired -> A "EPackageRequired"
 
 let outcome_to_sx (f : 'a -> sx) (o : 'a Model.outcome) : sx =
   match o with
